@@ -29,6 +29,10 @@ pub struct Setup {
     /// mark the process dumpable again after setuid (so that the supervisor can read /proc/<pid>/fd)
     #[serde(default)]
     pub keep_dumpable: bool,
+    /// become root of a fresh user namespace owning fresh mount and pid namespaces (a rootless-container caller);
+    /// the worker proper is pid 2 of the new pid namespace (two forks; a traced worker is followed through them)
+    #[serde(default)]
+    pub userns: bool,
 }
 
 #[derive(Serialize, Deserialize, Clone, Debug, Default, PartialEq, Eq)]
